@@ -350,6 +350,8 @@ def default_settled(trace: Trace) -> bool:
         if id_ not in trace.enqueued:
             return False
         places = pr.get(id_, [])
+        if any(not e.done and e.error is None for e in trace.spy.for_id(id_)):
+            return False  # a broker call for it is still under way (a RabbitMQ requeue is ack, then publish: nowhere in between)
         if any(p.kind in ("waiting", "held") for p in places):
             if j.get("expect") == "stays":
                 continue
@@ -394,7 +396,7 @@ async def run_worker_case(loop: vclock.VLoop, case: dict, *, settled: Callable[[
     """
     from repid import Job, Queue, Worker
 
-    reset_globals()
+    reset_globals(case.get("log"))
     env = Env(case.get("broker", "mem"), loop, case.get("seed", 0))
     spy = Spy(loop)
     trace = Trace(case, env, spy)
